@@ -5,6 +5,7 @@
  * usage: h_seq --prop C01 --profile P1 --start S0 --depth 5 --out res.json [--deadline s] [--prune]
  *              [--observe walk,owner] [--dirty] [--replay file] [-v]
  */
+#include <sys/prctl.h>
 #include "src/static.c"
 #include "verif_post.h"
 #include "vf_harness.h"
@@ -181,6 +182,9 @@ static const profile_t profiles[] = {
   { .name = "P8d", .msizes = { 100 * MiB, 17 * MiB, 1 * MiB }, .nm = 3, .maxlive = 48, .free_window = 2 },
   /* P4o: first-class heaps with over-aligned blocks (64 MiB alignment: a mapping of its own, placed by the kernel far above the arenas) */
   { .name = "P4o", .msizes = { 8 * KiB }, .nm = 1, .hsizes = { 8 * KiB }, .nh = 1, .heaps = 1, .hdestroy = 1, .setdef = 1, .haligned = 1, .collect1 = 1, .maxlive = 8, .free_window = 4 },
+  /* P8t: from S14 (a segment filled exactly to its last slice): the last pages are released, a 1.5 MiB page is built on the coalesced span
+     that ends at the segment's end, time passes, collects */
+  { .name = "P8t", .msizes = { 1536 * KiB }, .nm = 1, .collect1 = 1, .ticks = { 1000 }, .nt = 1, .maxlive = 48, .free_window = 4 },
   /* P9s: hardened builds (C17): a full page of 8 blocks, frees, and the three fault operations at every position */
   { .name = "P9s", .msizes = { 8000, 100 }, .nm = 2, .fills = { 8000 }, .nf = 1, .faults = 1, .collect1 = 1, .maxlive = 12, .free_window = 4 },
   /* P9g: hardened builds: a small size class whose pages start behind a gap at the beginning of their slice; start state S8 leaves
@@ -345,6 +349,8 @@ static int run_observers(void) {
   if (pid < 0) { vf_sh->infra_error = 1; return -1; }
   if (pid == 0) {
     int r = 0;
+    alarm(60);                                   /* (timers are not inherited: a walk that never ends must not outlive the check) */
+    prctl(PR_SET_PDEATHSIG, SIGKILL);
     if (g_obs_owner) r = check_owner();
     if (r == 0 && g_obs_walk) for (int h = 0; h < NHEAPS && r == 0; h++) if (g_heaps[h] != NULL) r = check_walk_heap(h);
     if (r == 0 && g_obs_abandoned) r = check_abandoned();
@@ -353,6 +359,7 @@ static int run_observers(void) {
   int st = 0; waitpid(pid, &st, 0);
   if (WIFEXITED(st) && WEXITSTATUS(st) == 0) return 0;
   if (WIFEXITED(st) && WEXITSTATUS(st) == 3) return -1;   /* violation already recorded */
+  if (WIFSIGNALED(st) && WTERMSIG(st) == SIGALRM) { vf_violation("hang", "the heap walk / ownership queries of this state did not finish within 60 s"); return -1; }
   vf_violation("observer-crash", "heap walk / ownership observer died (status 0x%x)", st);
   return -1;
 }
@@ -920,6 +927,18 @@ static int build_start(const char* s) {
     }
     return 0;
   }
+  if (strcmp(s, "S14") == 0) {
+    /* one segment used to its very last slice: 7 small pages (seven size classes), 31 pages of 1 MiB and a 512 KiB page at the end
+       (1 + 7 + 496 + 8 = 512 slices); the block of the last page and the 1 MiB block before it are the newest live blocks */
+    static const size_t cls[7] = { 16, 32, 48, 64, 80, 96, 112 };
+    for (int k = 0; k < 7; k++) if (do_op(OP_MALLOC, (long)cls[k], 0)) return 1;
+    const mi_segment_t* seg0 = _mi_ptr_segment(vf_live[0].p);
+    for (int k = 0; k < 31; k++) { if (do_op(OP_MALLOC, 1 * MiB, 0)) return 1; if (_mi_ptr_segment(vf_live[vf_nlive - 1].p) != seg0) { vf_violation("start-state", "S14: 1 MiB page %d left the segment", k); return 1; } }
+    if (do_op(OP_MALLOC, 500 * KiB, 0)) return 1;
+    { const uint8_t* p = vf_live[vf_nlive - 1].p; size_t psize = 0; const uint8_t* ps = _mi_segment_page_start(_mi_ptr_segment(p), _mi_ptr_page(p), &psize);
+      if (_mi_ptr_segment(p) != seg0 || ps + psize != (const uint8_t*)seg0 + MI_SEGMENT_SIZE) { vf_violation("start-state", "S14: the last page ends %ld KiB before the end of the segment (page start slice %ld, size %zu KiB, segment used %zu pages)", (long)(((const uint8_t*)seg0 + MI_SEGMENT_SIZE) - (ps + psize)) / 1024, (long)(ps - (const uint8_t*)seg0) / 65536, psize / 1024, seg0->used); return 1; } }
+    return 0;
+  }
   if (strcmp(s, "S12") == 0) {
     /* a page of the 512-byte class sits at the front of the heap's full queue; the 1024-byte queue is [B, A] where B (first) has
        just handed out its last block but has not been looked at since, and A came back from the full queue with one free block */
@@ -954,6 +973,17 @@ static int build_start(const char* s) {
       if (seg0 == NULL) seg0 = sg;
       if (sg != seg0) { if (do_op(OP_FREE, vf_nlive - 1, 0)) return 1; break; }
     }
+    return 0;
+  }
+  if (strcmp(s, "S13") == 0) {
+    /* like S9 with a 5 GiB arena whose blocks 1..126 are taken: the next segments (those of helper threads) land in arena block 127
+       -- the last bit of the second bitmap field -- and then in the third field */
+    mi_arena_id_t aid = 0;
+    if (mi_reserve_os_memory_ex((size_t)5120 * MiB, false, false, false, &aid) != 0) { fprintf(stderr, "cannot reserve arena\n"); return 2; }
+    if (do_op(OP_MALLOC, 8 * KiB, 0) || do_op(OP_MALLOC, 8 * KiB, 0)) return 1;
+    mi_memid_t memid;
+    void* blk = _mi_arena_alloc((size_t)126 * MI_ARENA_BLOCK_SIZE, false, false, aid, &memid);
+    if (blk == NULL) { fprintf(stderr, "cannot pre-claim arena blocks\n"); return 2; }
     return 0;
   }
   if (strcmp(s, "S9") == 0) {
